@@ -289,6 +289,7 @@ let model_obs (f : string list) : string =
   | [ _; "render"; src ] -> model_render (unhex src) ""
   | _ :: "render" :: src :: data :: _ -> model_render (unhex src) (unhex data)
   | _ :: "tree" :: fs :: ops :: _ -> model_tree (unhex fs) (unhex ops)
+  | _ :: "conc" :: _ -> "CONC-MODEL"
   | _ -> "UNMODELLED\tunknown kind"
 
 
@@ -301,6 +302,7 @@ let same_obs (m : string) (impl : string) : bool =
     | [ "PANIC" ], "PANIC" :: _ -> true
     | [ "RENDER"; "UNSUPPORTED-DATA" ], [ "RENDER"; "ERR"; "0"; "-"; msg ] ->
         starts_with "unsupported type '" (unhex msg)
+    | [ "CONC-MODEL" ], "CONC" :: _ :: "diff=0" :: _ -> true
     | [ "TREE"; mo ], [ "TREE"; io ] ->
         let ml = String.split_on_char '|' mo and il = String.split_on_char '|' io in
         List.length ml = List.length il
